@@ -474,6 +474,12 @@ def binop(ip, op, a, b):
         raise Unsupported('operator on objects')
     if not (is_num(a) or is_bool(a)) or not (is_num(b) or is_bool(b)):
         raise Unsupported('binop %s on %r, %r' % (type(op).__name__, a, b))
+    if isinstance(op, (ast.BitXor, ast.BitAnd, ast.BitOr)) and is_bool(a) and is_bool(b):
+        # python bools: ^ & | are the logical connectives (both operands are evaluated; no short circuit)
+        if isinstance(a, bool) and isinstance(b, bool):
+            return {'BitXor': a ^ b, 'BitAnd': a & b, 'BitOr': a | b}[type(op).__name__]
+        za, zb = to_z3(a), to_z3(b)
+        return {'BitXor': z3.Xor(za, zb), 'BitAnd': z3.And(za, zb), 'BitOr': z3.Or(za, zb)}[type(op).__name__]
     both_int = (is_int(a) or is_bool(a)) and (is_int(b) or is_bool(b))
     if isinstance(op, ast.Add):
         return to_int(a) + to_int(b) if both_int else _fl(ip, to_real(a) + to_real(b))
@@ -1600,6 +1606,12 @@ def copy_deepcopy(ip, args, kw):
     if isinstance(v, Seq):
         return v.copy()
     if isinstance(v, Obj):
+        if isinstance(v.cls, ClassRef):
+            m = v.cls.find('__deepcopy__')
+            if m is not None:
+                return ip.call(m, [v, {}], {})
+        # python's default: a new object whose attributes are deep copies; FUNCTIONS (closures, lambdas) are atomic for deepcopy:
+        # a closure that captured the original object keeps referring to the original
         return Obj(v.cls, {k: copy_deepcopy(ip, [x], {}) for k, x in v.fields.items()}, v.tag)
     return v
 
